@@ -27,6 +27,7 @@ type vstore struct {
 	lcalls int
 	// shadow state for the implementation-side monitors
 	shadow    map[int]int  // key -> latest value written (absent after Delete)
+	shadowExp map[int]int64 // key -> deadline that governs the latest value (0 = none)
 	gen       map[int]int  // key -> number of entries created for it
 	stored    int          // entries created
 	notified  int
@@ -35,7 +36,7 @@ type vstore struct {
 }
 
 func newVStore(tr *vtrace, size int64, doorkeeper bool, start int64) *vstore {
-	v := &vstore{tr: tr, now: start, shadow: map[int]int{}, gen: map[int]int{}, notifKeys: map[string]int{}}
+	v := &vstore{tr: tr, now: start, shadow: map[int]int{}, shadowExp: map[int]int64{}, gen: map[int]int{}, notifKeys: map[string]int{}}
 	vsetNow(start)
 	vsetRand(0)
 	v.s = vnewStore(&StoreOptions[int, int]{MaxSize: size, Doorkeeper: doorkeeper,
@@ -121,6 +122,17 @@ func (v *vstore) set(key, val int, cost int64, ttl int64) bool {
 	}
 	if ok {
 		v.shadow[key] = val
+		// the deadline that governs this value: this call's time + TTL; without TTL the earlier
+		// deadline is kept only if that earlier value is still alive
+		if ttl != 0 {
+			d := v.now + ttl
+			if d < v.now {
+				d = int64(^uint64(0) >> 1)
+			}
+			v.shadowExp[key] = d
+		} else if before == nil || (v.shadowExp[key] != 0 && v.shadowExp[key] <= v.now) {
+			v.shadowExp[key] = 0
+		}
 		if before == nil {
 			v.stored++
 			v.gen[key]++
@@ -188,6 +200,15 @@ func (v *vstore) lget(key int, lerr bool, lval int, lcost, lttl int64) {
 		after := v.resident(key)
 		if after != nil && after.value == lval {
 			v.shadow[key] = lval
+			if lttl != 0 {
+				d := v.now + lttl
+				if d < v.now {
+					d = int64(^uint64(0) >> 1)
+				}
+				v.shadowExp[key] = d
+			} else if before == nil || (v.shadowExp[key] != 0 && v.shadowExp[key] <= v.now) {
+				v.shadowExp[key] = 0
+			}
 			if before == nil {
 				v.stored++
 				v.gen[key]++
@@ -277,6 +298,16 @@ func (v *vstore) checkNotes(op string) {
 		fmt.Sscan(v.notes[i+1], &val)
 		if e := v.resident(k); e != nil && e.value == val && v.gen[k] <= 1 {
 			v.tr.viol(fmt.Sprintf("C05: %s notified key %d value %d (reason %s) while that entry is still resident", op, k, val, v.notes[i+2]))
+		}
+		if v.notes[i+2] == "2" {
+			// reported as expired: the value must have had a deadline, and that deadline must have passed
+			if cur, has := v.shadow[k]; has && cur == val {
+				if d := v.shadowExp[k]; d == 0 {
+					v.tr.viol(fmt.Sprintf("C06: key %d value %d has no deadline but was removed as EXPIRED at %d", k, val, v.now))
+				} else if d > v.now {
+					v.tr.viol(fmt.Sprintf("C04: key %d value %d removed as EXPIRED at %d before its deadline %d", k, val, v.now, d))
+				}
+			}
 		}
 		if v.notes[i+2] != "0" {
 			// evicted or expired entries are gone for readers too
